@@ -1,5 +1,45 @@
-"""spqa.trusted — hand-written summaries for functions outside the engine's catalogue (name -> callable).
-Each entry needs a one-line reason; an unsummarisable function without an entry is exit 2.
-Currently empty: the in-place rotation/automorphism cycle walks are data-independent and are instantiated on the
-shape parameters (nn, p) like every other loop."""
-TRUSTED = {}
+"""spqa.trusted — hand-written summaries for functions whose IR is correct to instantiate but slow to do so.
+Each entry is a *pure* function of concrete integer arguments and is validated against the IR of the current source
+on sample arguments by `validate()` (called by the checks that rely on it): a summary that disagrees with the source is
+analysis-broken (exit 2), never silently used.
+
+  modq_pow(x, n, q): square-and-multiply modular exponentiation used ~4n times by the NTT table constructors; the
+                     instantiated loop costs ~60 interpreted steps per call, the summary is pow(x, e, q)."""
+from .vals import is_int, signed
+
+
+def _modq_pow(machine, f, args, loc):
+    x, n, q = args
+    if not (is_int(x) and is_int(n) and is_int(q)) or q < 2:
+        return machine.run_function(__import__('spqa.machine', fromlist=['Frame']).Frame(f, args, len(machine.stack)))
+    x &= 0xffffffff
+    q &= 0xffffffff
+    ns = signed(n, 64)
+    # C semantics: np = (n % (q-1) + q - 1) % (q-1) with truncating signed remainder
+    m = q - 1
+    r = abs(ns) % m
+    if ns < 0:
+        r = -r
+    e = (r + m) % m
+    return pow(x, e, q) & 0xffffffff if e else (1 % q)
+
+
+TRUSTED = {'modq_pow': _modq_pow}
+
+
+def validate(lib):
+    """compare every summary with the instantiated IR on sample arguments; returns list of problems"""
+    from .machine import Machine
+    probs = []
+    f = lib.fn('modq_pow')
+    if f is None:
+        return ['modq_pow vanished']
+    samples = [(3, 5, 1073479681), (1070907127, 65536, 1073479681), (7, -3, 1072496641), (2, 0, 1071513601),
+               (123456789, (1 << 40) + 17, 1073479681), (846468380, -65535, 1068236801)]
+    for (x, n, q) in samples:
+        m = Machine(lib, cpu='accel', trusted={})
+        got = m.call(f, [x, n & ((1 << 64) - 1), q])
+        want = _modq_pow(m, f, [x, n & ((1 << 64) - 1), q], None)
+        if got != want:
+            probs.append('summary of modq_pow disagrees with the source on %r: IR %r, summary %r' % ((x, n, q), got, want))
+    return probs
